@@ -37,9 +37,10 @@ CLAIMED = {
              'inside Coq on the REAL assembler\'s image, segments and label table for every generated program (x w in '
              '{8,16,32,64} x fjm v0..3), plus exact image correspondence with Layout.v; rejections compared by error class.',
         design_ref='DESIGN.md section 4, C02',
-        note='Guards of C02_sound = known findings F17 (lexical_labels) and F18 (reserves_nonneg). The theorems are about the '
-             'transcription, tied to the code per run by exact image correspondence and the certified checker on real output; '
-             'lexing and LALR parsing are shared with the implementation through the AST dump. F8, F16 fixed.',
+        note='C02_sound has one hypothesis, lexical_labels: no label statement is spelled `:wflips:...` - a property of parser '
+             'output (lexer identifiers never contain `:`), not a defect guard. The theorems are about the transcription, tied '
+             'to the code per run by exact image correspondence and the certified checker on real output; lexing and LALR '
+             'parsing are shared with the implementation through the AST dump. F8, F16, F17, F18 fixed.',
         technique='Coq soundness theorem of the assembler model w.r.t. a denotation spec (wflip chains run on the machine) + certified per-program checker on real output'),
     'C03': dict(
         category='proof',
@@ -91,6 +92,23 @@ CLAIMED = {
              'with vm_compute inside Coq, plus the spec evaluated on the real behaviour. Version independence of assembled '
              'programs and get_word\'s address mask are campaign-only. F3-F5 fixed.',
         technique='Coq round-trip / codec theorems on a writer+reader model + correspondence campaign evaluated in Coq'),
+    'C09': dict(
+        category='proof',
+        text='Theorems by kernel computation on images regenerated from the current stl and assembler on every run: for each '
+             'documented input/print/cast/buffer macro and each instance (n, w) a generated theorem `forall values in the '
+             'stated ranges and ALL input byte strings over the stated alphabet up to the stated length, block_correct_io` '
+             '(frame equation with IO: exact output bytes, exact input bits consumed, documented exit, every memory word = image '
+             'patched with the documented values modulo declared scratch; cause EOF exactly when the input ends first), by '
+             'exhaustive vm_compute + Qed lifting lemmas (C09_checker_decides_io_frame_equation, C09_enumeration_is_universal, '
+             'C09_strings_over_alphabet); specs transcribed from the doc comments (Spec/StlIOSpec.v).',
+        design_ref='DESIGN.md section 4, C04/C05/C08/C09',
+        note='Exhaustive only over the stated finite domains: print macros over all values up to 16 bits, single-byte/hex-digit '
+             'readers over ALL byte strings of length <= 2, decimal/line readers over all strings of length <= 3 (quick) / 4 '
+             '(thorough) on a SAMPLED 12-/7-/16-symbol class alphabet (named in each theorem), casts exhaustive on sizes <= 16 '
+             'bits, buffers of <= 3 cells; larger sizes and longer inputs are sampled on the real engines (tests). bit.input n '
+             'byte order (known finding F24) is excluded by an explicit guard with _refuted examples and proved in its as-built '
+             'form; error-exit destinations are left open as the documentation does; w in {32,64}. F25 fixed.',
+        technique='Coq theorems by computation (exhaustive finite domains incl. input strings, stated) on regenerated images + IO frame lemma'),
     'C10': dict(
         category='proof',
         text='C10_total (every byte string and every decoder behaviour ends in an image or the read error), C10_bounded / '
@@ -196,8 +214,8 @@ CLAIMED = {
              'programs with namespaces, reps, label parameters, pad/segment/reserve at w=8..64 assembled by the real assembler, '
              'addresses recovered from unique op words in the image independently of the table.',
         design_ref='DESIGN.md section 4, C16',
-        note='C16_table is guarded by no_collision (known finding F17: `_.wflip_area_start_k` overwritten; N2: catch-all on the '
-             'same name). JSON/LZMA round-trip laws are premises. The campaign does not cover stl or wflip-statement programs.',
+        note='All declared and segment label names are shown pairwise distinct (C16_names_distinct); JSON/LZMA round-trip laws are '
+             'premises. The campaign does not cover stl or wflip-statement programs. F17, N2 fixed.',
         technique='Coq theorems on the label-table / breakpoint model + image-based correspondence of label addresses'),
     'C17': dict(
         category='proof',
